@@ -61,7 +61,7 @@ func drawRound(r *sim.Rng, se *Session, g *sim.Gen, tier string) *sim.ParRound {
 		var spec *sim.FilterSpec
 		for try := 0; try < 6; try++ {
 			op := g.GenFilterOp()
-			if op.Spec != nil && op.Spec.Ad >= 0 {
+			if op.Spec != nil && (op.Spec.Ad >= 0 || len(op.Spec.Ts) > 0) {
 				spec = op.Spec
 				break
 			}
